@@ -2,7 +2,7 @@
    Property theorems only; proofs are in Proofs/RefsProofs.v and Proofs/LRfull.v (the real LR driver on the generated
    tables, with the real grammar actions and host callbacks, emits exactly the events of the post-order evaluation). *)
 From HX Require Import Model.Base Model.Lexer Model.Value Model.Operators Model.Cell Model.Interp
-  Proofs.LRcert Proofs.LRvalue Proofs.LRfull Proofs.RefsProofs Proofs.CellProofs Gen.Registry.
+  Proofs.LRcert Proofs.LRvalue Proofs.LRfull Proofs.RefsProofs Proofs.RefsPrefix Proofs.CellProofs Gen.Registry.
 Open Scope Z_scope.
 
 Theorem C10_certificate : cert_full = true.
@@ -21,6 +21,11 @@ Proof. exact parse_formula_expr. Qed.
 (* exactly one event per reference, left to right, arguments before their call *)
 Theorem C10_one_event_per_reference_in_order : forall h e v, fst (xval h e) = ROk v -> map ref_of (snd (xval h e)) = refs e.
 Proof. exact events_postorder. Qed.
+(* ... also when the evaluation fails: what was emitted before the failure is a prefix of the post-order list *)
+Theorem C10_events_prefix_when_failing : forall h e,
+  is_prefix (map ref_of (snd (xval h e))) (refs e) /\
+  (forall v, fst (xval h e) = ROk v -> map ref_of (snd (xval h e)) = refs e).
+Proof. exact events_prefix_of_postorder. Qed.
 Theorem C10_arguments_before_call : forall h name args vs evs v, xvals (xval h) args = (ROk vs, evs) ->
   fst (call_function h name vs) = ROk v -> snd (xval h (XCall name args)) = evs ++ [EvFunction name vs].
 Proof. exact call_arguments_in_order. Qed.
@@ -93,3 +98,4 @@ Print Assumptions C10_cell_event.
 Print Assumptions C10_range_event.
 Print Assumptions C10_range_corner_orders.
 Print Assumptions C10_setter_last_wins.
+Print Assumptions C10_events_prefix_when_failing.
